@@ -151,7 +151,11 @@ func Read(r io.ReaderAt) (*Info, error) {
 			}
 		}
 	}
-	_, err = r.ReadAt(buf[:1], coverage[len(coverage)-1].End-1)
+	// io.ReaderAt may return io.EOF together with the last byte of the input
+	n, err := r.ReadAt(buf[:1], coverage[len(coverage)-1].End-1)
+	if n == 1 {
+		err = nil
+	}
 	if err == io.EOF {
 		return nil, &parser.InvalidFontError{
 			SubSystem: "sfnt/header",
